@@ -4,21 +4,6 @@ From TV Require Import Base.Prelude Spec.Ordered Model.TomlValue Spec.Canonical.
 From TV Require Import Proofs.ContainersOrder Proofs.CanonicalBase Proofs.CanonicalEmit Proofs.CanonicalRead Proofs.CanonicalOrder.
 From Coq Require Import Permutation.
 
-(* who hands the entries of the tables to the serializer *)
-Inductive writer :=
-| WValue     (* toml::Value: `impl Serialize for Value`, three loops at every level *)
-| WTable     (* toml::Table at the root: map order there, Values below *)
-| WStruct.   (* a derived struct / any impl that keeps its own order, at every level (ser_plain) *)
-Definition w_three (w : writer) : bool := match w with WValue => true | _ => false end.
-Definition w_tn (w : writer) : bool := match w with WStruct => false | _ => true end.
-
-Definition emit_doc (w : writer) (ml : bool) (m : list (bytes * tv)) : list section :=
-  match w with
-  | WValue => emit_value_doc ml m
-  | WTable => emit_table_doc ml m
-  | WStruct => emit_struct_doc ml m
-  end.
-
 (* the printers write the canonical document *)
 Lemma canonical_document w ml m : emit_doc w ml m = sections_of ml (w_three w) (w_tn w) m.
 Proof.
@@ -31,11 +16,12 @@ Qed.
    kind of serializer (tn = true: ser_value, tn = false: ser_plain) *)
 Lemma table_shape ml tn m t p a :
   fmt_item ml (ser_g tn (TTab m)) = ITbl t ->
-  flat_map visit_table (visit_nested t p a)
-  = own_section ml tn tn m p (kind_of p a) ++ rest_secs ml tn tn m p /\
-  Forall (fun s => strict_prefix p (s_path s)) (rest_secs ml tn tn m p).
+  exists rest,
+    flat_map visit_table (visit_nested t p a)
+    = (if own_visible (kind_of p a) m (own_lines ml tn tn m) then [mkSec p (kind_of p a) (own_lines ml tn tn m)] else []) ++ rest /\
+    Forall (fun s => strict_prefix p (s_path s)) rest.
 Proof.
-  rewrite fmt_item_tab. intro E. injection E as <-.
+  rewrite fmt_item_tab. intro E. injection E as <-. exists (rest_secs ml tn tn m p).
   rewrite (emit_eq_all ml tn tn m p a). apply own_section_first.
 Qed.
 
@@ -102,8 +88,6 @@ Proof.
   - rewrite map_fst_map. exact ND.
 Qed.
 
-Definition sorted_tv (v : tv) : Prop := sort_tv v = v.
-
 (* under BTreeMap the decoded value is the sorted value: exactly v when v is a BTreeMap-backed value *)
 Lemma decode_sorted w ml m :
   wf_tv (TTab m) = true ->
@@ -124,9 +108,6 @@ Proof.
 Qed.
 
 (* ---- one-step fixed point ---- *)
-
-Definition order_inv (o : morder) (m : list (bytes * tv)) : Prop :=
-  match o with OSorted => sorted_tv (TTab m) | OInsertion => True end.
 
 (* for the serializers of toml::Value and toml::Table (w_tn w = true) *)
 Lemma fixpoint w o ml ml' m :
@@ -203,15 +184,6 @@ Proof.
 Qed.
 
 (* ---- "up to the order of map entries", spelled out ---- *)
-
-(* w is v with the entries of any of its maps, at any depth, permuted *)
-Inductive perm_tv : tv -> tv -> Prop :=
-| PLeaf t : perm_tv (TLeaf t) (TLeaf t)
-| PArr l l' : Forall2 perm_tv l l' -> perm_tv (TArr l) (TArr l')
-| PTab m m1 m' :
-    Permutation m m1 ->
-    Forall2 (fun a b => fst a = fst b /\ perm_tv (snd a) (snd b)) m1 m' ->
-    perm_tv (TTab m) (TTab m').
 
 Lemma Forall2_map_eq {A B C} (f : A -> C) (g : B -> C) l l' :
   Forall2 (fun a b => f a = g b) l l' -> map f l = map g l'.
